@@ -116,6 +116,7 @@ func c17Forwarder(c *Check) {
 		}
 		c.Report(!bad, P+".O1", "NO-FORWARD-ON-UNWRAP-ERROR", fn, e.From.Instrs[len(e.From.Instrs)-1].Pos(), "unwrap error edge", "a message that is not a valid envelope is never forwarded")
 	}
+	c17UnwrapValidates(c, P, CalleeFn(uw.Common()))
 	for i, pb := range pubs {
 		k := fmt.Sprintf("Publish#%d", i)
 		c.Report(AllOrigins(Arg(pb, 0), func(v ssa.Value) bool { return IsResultOf(v, uw, 0) }), P+".O2", "DEST-TOPIC", fn, pb.Pos(), k, "the destination topic is the one recorded in the envelope")
@@ -158,24 +159,83 @@ func relayReturns(c *Check, P string, fn *ssa.Function, okEdges, failEdges []Edg
 	for _, e := range failEdges {
 		re := ReachEdge(e, nil)
 		ok := true
+		var wit []string
+		// the error that is known to be non-nil on this edge
+		var failing ssa.Value
+		if iff, isIf := e.From.Instrs[len(e.From.Instrs)-1].(*ssa.If); isIf {
+			for _, t := range Tests(fn) {
+				if t.If == iff {
+					failing = t.X
+					if IsNilConst(failing) {
+						failing = t.Y
+					}
+				}
+			}
+		}
+		isFailing := func(v ssa.Value) bool { return failing != nil && (v == failing || sameValue(v, failing)) }
 		for _, r := range Returns(fn) {
 			if !re[r] {
 				continue
 			}
 			res := r.Results[len(r.Results)-1]
-			if phi, isPhi := res.(*ssa.Phi); isPhi {
-				// only the incoming edges reachable from e matter; conservative: any nil edge fails
-				for _, pe := range phi.Edges {
-					if IsNilConst(pe) {
-						ok = false
-					}
+			for _, v := range Origins(res) {
+				if !ProvablyNonNil(v, isFailing) {
+					ok = false
+					wit = append(wit, "return at "+c.P.Pos(r.Pos())+" yields "+v.String()+", which is not provably non-nil on the failure edge")
 				}
-			} else if IsNilConst(res) {
-				ok = false
 			}
 		}
-		c.Report(ok, P+".O1", "RELAY-NACK", fn, e.From.Instrs[len(e.From.Instrs)-1].Pos(), "publish error edge", "when the destination Publish fails a non-nil error is returned (⇒ Nack)")
+		c.Report(ok, P+".O1", "RELAY-NACK", fn, e.From.Instrs[len(e.From.Instrs)-1].Pos(), "publish error edge", "when the destination Publish fails a provably non-nil error is returned (the failing error itself, a wrap of it, or a fresh error) ⇒ Nack", wit...)
 	}
+}
+
+// ProvablyNonNil: v is non-nil whenever known(v') holds for the error known to
+// be non-nil: the error itself, a wrap of a provably non-nil error, or a
+// freshly constructed error.
+func ProvablyNonNil(v ssa.Value, known func(ssa.Value) bool) bool {
+	seen := map[ssa.Value]bool{}
+	var rec func(v ssa.Value, d int) bool
+	rec = func(v ssa.Value, d int) bool {
+		if v == nil || d > 6 || seen[v] {
+			return false
+		}
+		seen[v] = true
+		if known(v) {
+			return true
+		}
+		switch x := v.(type) {
+		case *ssa.Const:
+			return !x.IsNil()
+		case *ssa.MakeInterface:
+			// a concrete non-pointer value boxed into an interface is non-nil
+			if _, isPtr := x.X.Type().Underlying().(*types.Pointer); !isPtr {
+				return true
+			}
+			return rec(x.X, d+1)
+		case *ssa.Alloc:
+			return true
+		case *ssa.Call:
+			switch CalleeName(x) {
+			case "github.com/pkg/errors.New", "github.com/pkg/errors.Errorf", "errors.New", "fmt.Errorf":
+				return true
+			case "github.com/pkg/errors.Wrap", "github.com/pkg/errors.Wrapf", "github.com/pkg/errors.WithStack", "github.com/pkg/errors.WithMessage", "github.com/pkg/errors.WithMessagef":
+				for _, o := range Origins(x.Call.Args[0]) {
+					if !rec(o, d+1) {
+						return false
+					}
+				}
+				return true
+			case "(context.Context).Err":
+				return false
+			}
+		case *ssa.UnOp:
+			if g, ok := x.X.(*ssa.Global); ok && g != nil {
+				return true // package-level sentinel error
+			}
+		}
+		return false
+	}
+	return rec(v, 0)
 }
 
 func c17ForwarderPublisher(c *Check) {
@@ -219,7 +279,7 @@ func c17ForwarderPublisher(c *Check) {
 				}
 			}
 			for _, r := range Returns(fn) {
-				if re[r] && IsNilConst(r.Results[0]) {
+				if re[r] && RetNil(r, 0) {
 					bad = true
 				}
 			}
@@ -436,7 +496,7 @@ func passthroughClosure(fn *ssa.Function) bool {
 		return false
 	}
 	for _, r := range rets {
-		if len(r.Results) != 2 || !IsNilConst(r.Results[1]) {
+		if len(r.Results) != 2 || !RetNil(r, 1) {
 			return false
 		}
 		els := VariadicElems(r.Results[0])
@@ -605,4 +665,69 @@ func c17FanOut(c *Check) {
 		})
 		c.Floor(P+".O2", "initialisation of message.PassthroughHandler", found, 1)
 	}
+}
+
+// c17UnwrapValidates: unwrap reports success only for an envelope that decoded
+// and whose destination topic is not empty.
+func c17UnwrapValidates(c *Check, P string, U *ssa.Function) {
+	if !c.Use(P+".O1", U, "unwrap function") {
+		return
+	}
+	dec := CallsTo(U, "encoding/json.Unmarshal")
+	if !c.Floor(P+".O1", "json.Unmarshal in unwrap", len(dec), 1) {
+		return
+	}
+	decOK, _ := NilEdges(U, ResultOfAny(dec, 0))
+	env := NamedOf(unwrapIface(dec[0].Common().Args[1]).Type())
+	// validation: either a call of an in-package method of the envelope type returning error, or an inline test of the destination
+	var vals []ssa.CallInstruction
+	for _, cl := range CallsIn(U) {
+		cal := CalleeFn(cl.Common())
+		if cal != nil && cal.Pkg == U.Pkg && cal.Signature.Recv() != nil && NamedOf(cal.Signature.Recv().Type()) == env && cal.Signature.Results().Len() == 1 && IsErrorType(cal.Signature.Results().At(0).Type()) {
+			vals = append(vals, cl)
+		}
+	}
+	valOK, _ := NilEdges(U, ResultOfAny(vals, 0))
+	nonEmptyInline := destNonEmptyEdges(U)
+	guards := append(append([]Edge{}, valOK...), nonEmptyInline...)
+	for i, r := range Returns(U) {
+		if !RetNil(r, len(r.Results)-1) {
+			continue
+		}
+		k := fmt.Sprintf("unwrap return#%d", i)
+		c.Report(len(decOK) > 0 && GuardedBy(U, r, decOK), P+".O1", "UNWRAP-SUCCESS-ONLY-IF-DECODED", U, r.Pos(), k, "unwrap succeeds only if the payload decoded as an envelope")
+		c.Report(len(guards) > 0 && GuardedBy(U, r, guards), P+".O1", "UNWRAP-SUCCESS-ONLY-IF-VALID", U, r.Pos(), k, "unwrap succeeds only for an envelope that passed validation (a payload without destination topic is not a valid envelope and is never forwarded)")
+	}
+	for _, v := range vals {
+		V := CalleeFn(v.Common())
+		c.Use(P+".O1", V, "envelope validation")
+		ne := destNonEmptyEdges(V)
+		ok := len(ne) > 0
+		for _, r := range Returns(V) {
+			if RetNil(r, 0) && !GuardedBy(V, r, ne) {
+				ok = false
+			}
+		}
+		c.Report(ok, P+".O1", "ENVELOPE-VALIDATION", V, V.Pos(), "validate", "validation accepts only envelopes with a non-empty destination topic")
+	}
+}
+
+// destNonEmptyEdges: edges on which a string field of the receiver/envelope is known to be != "".
+func destNonEmptyEdges(fn *ssa.Function) []Edge {
+	var out []Edge
+	for _, t := range Tests(fn) {
+		if t.Op != token.EQL || t.Y == nil {
+			continue
+		}
+		x, y := t.X, t.Y
+		if s, ok := ConstString(x); ok && s == "" {
+			x, y = y, x
+		}
+		if s, ok := ConstString(y); ok && s == "" {
+			if f := LoadedField(firstOrigin(x)); f != nil && f.Type().String() == "string" && f.Exported() {
+				out = append(out, t.False)
+			}
+		}
+	}
+	return out
 }
